@@ -278,85 +278,86 @@ def rule_identity(P) -> RuleResult:
     CONV = [Sym('CURRENCY_CONVERTER_A'), Sym('CURRENCY_CONVERTER_B')]
     FACTORY = Sym('FACTORY')
     drows = SList(origin=(Sym('RESULT'), Sym('R'), ()))
-    factory_args = []
+    for CONVS in (CONV, []):
+        factory_args = []
 
-    def on_call(fname, fval, recv, args, kwargs, ex, node):
-        f = str(fname)
-        if f.endswith('CONVERTING_TYPES.get') and args:
-            return FACTORY if args[0] == DT[COLS[1]] else (args[1] if len(args) > 1 else None)
-        if fval == FACTORY:
-            factory_args.append(args)
-            return SList(list(CONV))
-        if f.split('.')[-1] == 'IdentityConverter':
-            return T('new', ('IdentityConverter', args))
-        return NotImplemented
+        def on_call(fname, fval, recv, args, kwargs, ex, node):
+            f = str(fname)
+            if f.endswith('CONVERTING_TYPES.get') and args:
+                return FACTORY if args[0] == DT[COLS[1]] else (args[1] if len(args) > 1 else None)
+            if fval == FACTORY:
+                factory_args.append(args)
+                return SList(list(CONVS))
+            if f.split('.')[-1] == 'IdentityConverter':
+                return T('new', ('IdentityConverter', args))
+            return NotImplemented
 
-    def on_item(base, idx, ex):
-        if isinstance(base, T) and base.op == 'global' and base.args[0].endswith('CONVERTING_TYPES'):
-            if idx == DT[COLS[1]]:
-                return FACTORY
-            from ..symex import Raise
-            raise Raise('KeyError', (idx,))
-        return NotImplemented
+        def on_item(base, idx, ex):
+            if isinstance(base, T) and base.op == 'global' and base.args[0].endswith('CONVERTING_TYPES'):
+                if idx == DT[COLS[1]]:
+                    return FACTORY
+                from ..symex import Raise
+                raise Raise('KeyError', (idx,))
+            return NotImplemented
 
-    def on_attr(base, attr, ex):
-        if base in DT and attr == 'datatype':
-            return DT[base]
-        return NotImplemented
+        def on_attr(base, attr, ex):
+            if base in DT and attr == 'datatype':
+                return DT[base]
+            return NotImplemented
 
-    def oracle(term, ex):
-        if isinstance(term, T) and term.op == 'cmp' and term.args[0] in ('in', 'not in') and isinstance(term.args[2], T) \
-                and term.args[2].op == 'global' and str(term.args[2].args[0]).endswith('CONVERTING_TYPES'):
-            r = term.args[1] == DT[COLS[1]]
-            return r if term.args[0] == 'in' else not r
-        return None
-    eng = Engine(P, on_call=on_call, on_item=on_item, on_attr=on_attr, oracle=oracle)
-    construct = fi.fq
-    for p in eng.paths(fi, {fi.params[0]: SList(list(COLS)), fi.params[1]: drows, fi.params[2]: DFORMAT}):
-        if p.outcome != 'return' or not (isinstance(p.value, T) and p.value.op == 'tuple' and len(p.value.args) == 2):
-            res.fail(construct, 'identity:shape', f'numberify_results must return (columns, rows); {p.outcome} `{show(p.value)[:80]}`', loc(fi))
-            continue
-        otypes, orows = p.value.args
-        ident = [T('new', ('IdentityConverter', (_a(c, 'name'), DT[c], i))) for i, c in enumerate(COLS)]
-        want_convs = [ident[0], CONV[0], CONV[1], ident[2]]
-        if not factory_args or factory_args[-1] != (_a(COLS[1], 'name'), drows, 1):
-            res.fail(construct, 'identity:factory-args', f'converter factories must receive the column name, the rows and the column index; '
-                     f'got ({", ".join(map(show, factory_args[-1])) if factory_args else "no call"})', loc(fi))
-            continue
-        want_types = T('tuple', tuple(T('call', ('Column', (_a(c, 'name'), _a(c, 'dtype')), ())) for c in want_convs))
-        if canon(otypes) != canon(want_types):
-            # tell the identity-argument defect from an ordering defect
-            got = canon(otypes)
-            detail = 'identity:args' if 'IdentityConverter' in repr(got) and repr(canon(want_types)).count('IdentityConverter') == repr(got).count('IdentityConverter') else 'identity:order'
-            res.fail(construct, detail, f'the output columns must be: the other columns copied unchanged (IdentityConverter(name, datatype, '
-                     f'own index)) and, in place of an amount-like column, its currency columns in census order; got `{show(otypes)[:300]}`', loc(fi))
-            continue
-        # rows: one per input row, every converter applied to (row, dformat) in column order
-        rowval = None
-        if isinstance(orows, SList) and orows.origin is not None:
-            seq, elt, conds = orows.origin
-            if seq is drows and not conds:
-                rowval = elt
-        elif isinstance(orows, SList):
-            inner = loop_events(p, drows)
-            prods = [e for d, e in (inner or []) if e[0] == 'produce' and d == 0 and e[1] == orows.id]
-            if len(prods) == 1:
-                rowval = prods[0][2]
-        if early_exits(p, drows):
-            res.fail(construct, 'identity:rows', 'the conversion stops before the last input row', loc(fi))
-            continue
-        drow = T('elem', (drows,))
-        want_row = ('L', tuple(canon(T('call', (show(c), (drow, DFORMAT), ()))) for c in want_convs))
-        got_row = canon(rowval) if rowval is not None else None
-        if isinstance(got_row, tuple) and got_row and got_row[0] == 'call' and got_row[1] in ('list', 'tuple') and len(got_row[2]) == 1:
-            got_row = got_row[2][0]
-        if got_row != want_row:
-            res.fail(construct, 'identity:rows', f'every input row must yield one output row built by applying all converters, in column '
-                     f'order, to (row, formatter); got `{show(rowval)[:200]}`', loc(fi))
-            continue
-        muts = [e for e in p.events if e[0] == 'mutate' and isinstance(orows, SList) and e[1] == orows.id]
-        if muts:
-            res.fail(construct, 'identity:rows', f'the output rows are reordered ({muts[0][2]})', loc(fi))
+        def oracle(term, ex):
+            if isinstance(term, T) and term.op == 'cmp' and term.args[0] in ('in', 'not in') and isinstance(term.args[2], T) \
+                    and term.args[2].op == 'global' and str(term.args[2].args[0]).endswith('CONVERTING_TYPES'):
+                r = term.args[1] == DT[COLS[1]]
+                return r if term.args[0] == 'in' else not r
+            return None
+        eng = Engine(P, on_call=on_call, on_item=on_item, on_attr=on_attr, oracle=oracle)
+        construct = fi.fq
+        for p in eng.paths(fi, {fi.params[0]: SList(list(COLS)), fi.params[1]: drows, fi.params[2]: DFORMAT}):
+            if p.outcome != 'return' or not (isinstance(p.value, T) and p.value.op == 'tuple' and len(p.value.args) == 2):
+                res.fail(construct, 'identity:shape', f'numberify_results must return (columns, rows); {p.outcome} `{show(p.value)[:80]}`', loc(fi))
+                continue
+            otypes, orows = p.value.args
+            ident = [T('new', ('IdentityConverter', (_a(c, 'name'), DT[c], i))) for i, c in enumerate(COLS)]
+            want_convs = [ident[0]] + list(CONVS) + [ident[2]]
+            if not factory_args or factory_args[-1] != (_a(COLS[1], 'name'), drows, 1):
+                res.fail(construct, 'identity:factory-args', f'converter factories must receive the column name, the rows and the column index; '
+                         f'got ({", ".join(map(show, factory_args[-1])) if factory_args else "no call"})', loc(fi))
+                continue
+            want_types = T('tuple', tuple(T('call', ('Column', (_a(c, 'name'), _a(c, 'dtype')), ())) for c in want_convs))
+            if canon(otypes) != canon(want_types):
+                # tell the identity-argument defect from an ordering defect
+                got = canon(otypes)
+                detail = 'identity:args' if 'IdentityConverter' in repr(got) and repr(canon(want_types)).count('IdentityConverter') == repr(got).count('IdentityConverter') else 'identity:order'
+                res.fail(construct, detail, f'the output columns must be: the other columns copied unchanged (IdentityConverter(name, datatype, '
+                         f'own index)) and, in place of an amount-like column, its currency columns in census order' + ('' if CONVS else ' (none when no currency occurs in it: the column disappears)') + f'; got `{show(otypes)[:300]}`', loc(fi))
+                continue
+            # rows: one per input row, every converter applied to (row, dformat) in column order
+            rowval = None
+            if isinstance(orows, SList) and orows.origin is not None:
+                seq, elt, conds = orows.origin
+                if seq is drows and not conds:
+                    rowval = elt
+            elif isinstance(orows, SList):
+                inner = loop_events(p, drows)
+                prods = [e for d, e in (inner or []) if e[0] == 'produce' and d == 0 and e[1] == orows.id]
+                if len(prods) == 1:
+                    rowval = prods[0][2]
+            if early_exits(p, drows):
+                res.fail(construct, 'identity:rows', 'the conversion stops before the last input row', loc(fi))
+                continue
+            drow = T('elem', (drows,))
+            want_row = ('L', tuple(canon(T('call', (show(c), (drow, DFORMAT), ()))) for c in want_convs))
+            got_row = canon(rowval) if rowval is not None else None
+            if isinstance(got_row, tuple) and got_row and got_row[0] == 'call' and got_row[1] in ('list', 'tuple') and len(got_row[2]) == 1:
+                got_row = got_row[2][0]
+            if got_row != want_row:
+                res.fail(construct, 'identity:rows', f'every input row must yield one output row built by applying all converters, in column '
+                         f'order, to (row, formatter); got `{show(rowval)[:200]}`', loc(fi))
+                continue
+            muts = [e for e in p.events if e[0] == 'mutate' and isinstance(orows, SList) and e[1] == orows.id]
+            if muts:
+                res.fail(construct, 'identity:rows', f'the output rows are reordered ({muts[0][2]})', loc(fi))
     # IdentityConverter: copies the cell at its index, keeps name and datatype
     ident = m.classes.get('IdentityConverter')
     c = ident.methods.get('__call__') if ident else None
